@@ -183,6 +183,12 @@ fn inject(m: &mut RecipeM, sample: u8, variant: u8, pos: u16) {
             glued: variant & 64 != 0,
         },
         5 => TokM::Timer(TimerM { name: Some(["rest", "bake"][variant as usize % 2].into()), qty: None, braces: variant & 2 != 0 }),
+        // a modifier character after `~` is part of the timer's name without the modifiers extension
+        _ if variant % 5 == 4 => TokM::Timer(TimerM {
+            name: Some(["-rest", "+a", "&t", "?nap"][(variant / 5) as usize % 4].into()),
+            qty: Some(QtyM { lock: false, value: ValM::Num(NumM::Int(5)), unit: Some("min".into()), blank_sep: false }),
+            braces: true,
+        }),
         _ => {
             let ch = ['&', '-', '?', '+'][variant as usize % 4];
             TokM::Comp(comp(&format!("{ch}salt"), None))
